@@ -775,10 +775,71 @@ func ctorKind(info *types.Info, call *ast.CallExpr) samplerKind {
 	case "NewUniformSampler":
 		return skUniform
 	}
-	return skUnknown
+	return helperSamplerKind(info, call, f, 0)
+}
+
+// noiseProg is the program whose helper functions ctorKind may look into (set by newSamplerProv).
+var noiseProg *core.Program
+
+// helperSamplerKind classifies a call of a module helper that returns the sampler one of the constructors above builds
+// (`newNoiseSampler(params, noise)`): by the argument the call site passes for the helper's distribution parameter, or
+// by the constructor the helper calls when that does not depend on a parameter.
+func helperSamplerKind(info *types.Info, call *ast.CallExpr, f *types.Func, depth int) samplerKind {
+	if noiseProg == nil || f.Pkg() == nil || depth > 2 {
+		return skUnknown
+	}
+	sig, _ := f.Type().(*types.Signature)
+	if sig == nil || sig.Results().Len() == 0 || !strings.Contains(sig.Results().At(0).Type().String(), "ampler") {
+		return skUnknown
+	}
+	pk := noiseProg.ByPath[f.Pkg().Path()]
+	if pk == nil {
+		return skUnknown
+	}
+	var fd *ast.FuncDecl
+	for _, file := range pk.Syntax {
+		for _, d := range file.Decls {
+			if x, ok := d.(*ast.FuncDecl); ok && x.Body != nil && x.Recv == nil {
+				if o, _ := pk.TypesInfo.Defs[x.Name].(*types.Func); o != nil && funcOrigin(o) == funcOrigin(f) {
+					fd = x
+				}
+			}
+		}
+	}
+	if fd == nil {
+		return skUnknown
+	}
+	res := skUnknown
+	ast.Inspect(fd.Body, func(n ast.Node) bool {
+		inner, ok := n.(*ast.CallExpr)
+		if !ok || res != skUnknown {
+			return true
+		}
+		g := calleeFunc(pk.TypesInfo, inner)
+		if g == nil {
+			return true
+		}
+		if g.Name() == "NewSampler" && len(inner.Args) >= 3 {
+			if o := identObj(pk.TypesInfo, inner.Args[2]); o != nil {
+				for i := 0; i < sig.Params().Len(); i++ {
+					if sig.Params().At(i) == o && i < len(call.Args) {
+						res = distKind(info, call.Args[i])
+						return false
+					}
+				}
+			}
+		}
+		switch g.Name() {
+		case "NewSampler", "NewGaussianSampler", "NewTernarySampler", "NewUniformSampler":
+			res = ctorKind(pk.TypesInfo, inner)
+		}
+		return true
+	})
+	return res
 }
 
 func newSamplerProv(p *core.Program) *samplerProv {
+	noiseProg = p
 	sp := &samplerProv{p: p, field: map[*types.Var]samplerKind{}}
 	set := func(v *types.Var, k samplerKind) {
 		if v == nil || k == skUnknown {
